@@ -2,6 +2,7 @@ package props
 
 import (
 	"bytes"
+	"encoding/gob"
 	"encoding/json"
 	"fmt"
 	"os"
@@ -232,6 +233,9 @@ func expandJob(w *gen.World, kind int, cache func() spec.ResolutionCache) func()
 func c17World(rng interface{ Intn(int) int }, seed int64, idx, g int, acyclicOnly bool) *gen.World {
 	r := core.Rng(seed, "C17/world", idx*1000+g)
 	o := gen.WorldOpts{NDocs: 1 + r.Intn(3), Cyclic: !acyclicOnly && r.Intn(2) == 0, Nested: r.Intn(2) == 0, Chains: r.Intn(2) == 0, Elements: 2 + r.Intn(2), MaxDepth: 1 + r.Intn(2), RefDensity: 0.6}
+	if !acyclicOnly && r.Intn(3) == 0 {
+		o.MissingDoc, o.Dangling = 0.15, 0.1 // calls that fail must fail the same way, and must not hold up the others
+	}
 	return gen.GenWorld(r, o)
 }
 
@@ -349,6 +353,23 @@ func c17Run(env *core.Env, idx int) core.CaseResult {
 			jobs = append(jobs, c17Job{name: fmt.Sprintf("g%d", g), run: func() ([]byte, error) {
 				var buf bytes.Buffer
 				for rep := 0; rep < 3; rep++ {
+					if g%4 == 3 {
+						// gob transport of the shared document (read-only for it as well)
+						var gb bytes.Buffer
+						if err := gob.NewEncoder(&gb).Encode(sw); err != nil {
+							return nil, err
+						}
+						back := new(spec.Swagger)
+						if err := gob.NewDecoder(&gb).Decode(back); err != nil {
+							return nil, err
+						}
+						b, err := json.Marshal(back)
+						if err != nil {
+							return nil, err
+						}
+						buf.Write(b)
+						continue
+					}
 					if g%2 == 0 {
 						b, err := json.Marshal(sw)
 						if err != nil {
@@ -413,6 +434,9 @@ func c17Run(env *core.Env, idx int) core.CaseResult {
 			switch {
 			case pans[i] != "":
 				res.Violate("panic in a concurrent call ["+workload+"]", pans[i], wit)
+			case bytes.HasPrefix(got, []byte("ERROR: ")) && bytes.HasPrefix(j.ref, []byte("ERROR: ")):
+				// a world with several faults fails on whichever is met first (map order): failing is the answer
+				res.Count("both-fail", 1)
 			case !bytes.Equal(got, j.ref):
 				if j.sem != nil && errs[i] == nil {
 					if why := j.sem(got); why == "" {
@@ -752,7 +776,7 @@ func init() {
 		Race:          true,
 		MaxWorkers:    4,
 		ChunkSize:     8,
-		ChunkTimeoutS: 900,
+		ChunkTimeoutS: 240,
 		Assumptions: []string{"the Go race detector only reports races on executions that happen; repetitions, yields at hook H3 and varied GOMAXPROCS widen what happens",
 			"race reports are read from the runtime's log file after the goroutines of a case are joined; exit codes are not trusted",
 			"a checker time-out of porcupine (2 min) is inconclusive, never a violation"},
